@@ -320,8 +320,10 @@ def upd_model_op(h, meta, st):
 
 def observe(env, h, step_i, what=('values', 'cov', 'valid', 'nvalid', 'raw', 'layout', 'paths')):
     """all observers of C01/C02/C04 on handle h: returns [(model_op, comparator)]"""
-    m = env.maps[h]
-    meta = env.meta[h]
+    return observe_map(env.maps[h], env.meta[h], h, step_i, what)
+
+
+def observe_map(m, meta, h, step_i, what):
     out = []
     allpix = np.arange(meta.npix, dtype=np.int64)
 
@@ -470,6 +472,130 @@ def observe(env, h, step_i, what=('values', 'cov', 'valid', 'nvalid', 'raw', 'la
                                  '(extracted layoutb_with = false)', layer='L0', impl=dict(idx=idx), model=res[1])]
                 return []
             out.append((op, cmp_layout))
+    if 'covmap' in what:
+        cm, err = guard(lambda: [float(x) * meta.nfine for x in m.coverage_map], 'coverage_map')
+
+        def cmp_cm(res, cm=cm, err=err):
+            if err:
+                return [dict(step=step_i, what=err, layer='L0', impl='RAISED', model=None)]
+            mm = []
+            if [float(x) for x in res[1]] != cm:
+                mm.append(dict(step=step_i, what='coverage_map*nfine vs L1 block counts', layer='L1', impl=cm, model=res[1]))
+            if [float(x) for x in res[2]] != cm:
+                mm.append(dict(step=step_i, what='coverage_map*nfine vs L0 valid count per coverage pixel', layer='L0',
+                               impl=cm, model=res[2]))
+            return mm
+        out.append(([[10], [h]], cmp_cm))
+
+    if 'fracdet' in what:
+        ns = meta.nc
+        while ns <= meta.ns:
+            r = (meta.ns // ns) ** 2
+            def get_fd(ns=ns, r=r):
+                fm = m.fracdet_map(ns)
+                npx = 12 * ns * ns
+                vals = [float(x) * r for x in fm.get_values_pix(np.arange(npx))]
+                rawidx = [int(x) for x in fm._cov_map._cov_index_map]
+                rawsp = [float(x) * r for x in fm._sparse_map]
+                vp = sorted(int(p) for p in fm.valid_pixels)
+                return vals, rawidx, rawsp, vp, (fm.nside_coverage, fm.nside_sparse, str(fm.dtype), float(fm._sentinel))
+            fd, err = guard(get_fd, 'fracdet_map(%d)' % ns)
+
+            def cmp_fd(res, fd=fd, err=err, ns=ns, r=r):
+                if err:
+                    if meta.kind == 'packed' and r % 8 != 0:
+                        return []      # documented restriction of the packed reshaped sum (see C05 notes)
+                    return [dict(step=step_i, what=err, layer='L0', impl='RAISED', model=None)]
+                vals, rawidx, rawsp, vp, info = fd
+                mm = []
+                if info != (meta.nc, ns, 'float64', 0.0):
+                    mm.append(dict(step=step_i, what='fracdet_map(%d) parameters' % ns, layer='L0', impl=info, model=None))
+                if [float(x) for x in res[3]] != vals:
+                    mm.append(dict(step=step_i, what='fracdet_map(%d)*r vs L0 valid children count' % ns, layer='L0',
+                                   impl=vals[:48], model=res[3][:48]))
+                if vp != [q for q, c in enumerate(res[3]) if c > 0]:
+                    mm.append(dict(step=step_i, what='fracdet_map(%d) valid pixels vs L0' % ns, layer='L0',
+                                   impl=vp[:40], model=[q for q, c in enumerate(res[3]) if c > 0][:40]))
+                if res[1] != rawidx:
+                    mm.append(dict(step=step_i, what='fracdet_map(%d) raw index vs L1' % ns, layer='L1', impl=rawidx, model=res[1]))
+                if [float(x) for x in res[2]] != rawsp:
+                    mm.append(dict(step=step_i, what='fracdet_map(%d) raw storage vs L1 group counts' % ns, layer='L1',
+                                   impl=rawsp[:48], model=res[2][:48]))
+                return mm
+            out.append(([[11], [h], [r]], cmp_fd))
+            ns *= 2
+
+    if 'covpix' in what:
+        cmask = m.coverage_mask
+        cands = [int(c) for c in np.where(cmask)[0]]
+        unc = [int(c) for c in np.where(~cmask)[0]][:2]
+        allv = []
+        for c in cands + unc:
+            vp, err = guard(lambda c=c: [int(p) for p in m.valid_pixels_single_covpix(c)], 'valid_pixels_single_covpix')
+            if vp is not None:
+                allv += vp
+
+            def cmp_cp(res, vp=vp, err=err, c=c):
+                if err:
+                    return [dict(step=step_i, what=err, layer='L0', impl='RAISED', model=None)]
+                mm = []
+                if res[0][0] != 1 or res[1] != vp:
+                    mm.append(dict(step=step_i, what='valid_pixels_single_covpix(%d) vs L1' % c, layer='L1', impl=vp[:30],
+                                   model=res[1][:30]))
+                if sorted(vp) != res[2]:
+                    mm.append(dict(step=step_i, what='valid_pixels_single_covpix(%d) vs L0' % c, layer='L0', impl=sorted(vp)[:30],
+                                   model=res[2][:30]))
+                return mm
+            out.append(([[12], [h], [c]], cmp_cp))
+        # the generator form and the union of the listings (implementation-internal agreement)
+        try:
+            it = []
+            for arr in m.iter_valid_pixels_by_covpix():
+                it += [int(p) for p in arr]
+            whole = sorted(int(p) for p in m.valid_pixels)
+            errs = []
+            if sorted(it) != whole:
+                errs.append('union of iter_valid_pixels_by_covpix differs from valid_pixels')
+            if sorted(allv) != whole:
+                errs.append('union of valid_pixels_single_covpix differs from valid_pixels')
+        except Exception as e:  # noqa
+            errs = ['iter_valid_pixels_by_covpix raised %s: %s' % (type(e).__name__, e)]
+        if errs:
+            out.append((None, lambda res, errs=errs: [dict(step=step_i, what=e, layer='L0', impl=e, model=None) for e in errs]))
+
+    if 'submaps' in what:
+        cmask = m.coverage_mask
+        cands = [int(c) for c in np.where(cmask)[0]][:3] + [int(c) for c in np.where(~cmask)[0]][:1]
+        for j, c in enumerate(cands):
+            sub, err = guard(lambda c=c: m.get_single_covpix_map(c), 'get_single_covpix_map')
+            if err:
+                out.append((None, lambda res, err=err: [dict(step=step_i, what=err, layer='L0', impl='RAISED', model=None)]))
+                continue
+            hh = 9000 + j
+            out.append(([[13], [h], [hh], [c]], expect_ok(step_i, 'single_covpix')))
+            out += observe_map(sub, Meta(sub), hh, step_i, ('values', 'cov', 'valid', 'raw', 'layout'))
+        try:
+            subs = list(m.get_covpix_maps())
+            tot = sorted(int(p) for sm in subs for p in sm.valid_pixels)
+            if tot != sorted(int(p) for p in m.valid_pixels):
+                out.append((None, lambda res: [dict(step=step_i, what='valid pixels of get_covpix_maps differ from valid_pixels',
+                                                    layer='L0', impl=None, model=None)]))
+        except Exception as e:  # noqa
+            msg = 'get_covpix_maps raised %s: %s' % (type(e).__name__, e)
+            out.append((None, lambda res, msg=msg: [dict(step=step_i, what=msg, layer='L0', impl='RAISED', model=None)]))
+        try:
+            area = m.get_valid_area(degrees=False)
+            exp = int(m.n_valid) * hpg.nside_to_pixel_area(meta.ns, degrees=False)
+            s = str(m)
+            bad = []
+            if area != exp:
+                bad.append('get_valid_area != n_valid * pixel area')
+            if 'valid pixels' in s and (', %d valid pixels' % len(m.valid_pixels)) not in s:
+                bad.append('__str__ reports a stale valid count: ' + s[-40:])
+            if bad:
+                out.append((None, lambda res, bad=bad: [dict(step=step_i, what=b, layer='L0', impl=b, model=None) for b in bad]))
+        except Exception as e:  # noqa
+            pass
     return out
 
 
